@@ -862,7 +862,7 @@ fn macho_flavour(f: &mut Func) {
 pub fn run_ana(tier: &str, seed: u64) -> Report {
     let mut rep = Report::new("ana");
     let mut p = Prng::new(seed.wrapping_mul(0x3c6e_f372_fe94_f82b).wrapping_add(13));
-    let n: u64 = if tier == "thorough" { 400_000 } else { 30_000 };
+    let n: u64 = if tier == "thorough" { 600_000 } else { 80_000 };
     let mut lines = Vec::new();
     let mut impls = Vec::new();
     for id in 0..n {
